@@ -1025,7 +1025,7 @@ BLOCKS = [
 ]
 
 
-def db_restore(d0: int, via_tick: bool, d1: int, d2: int, blk: int, use_fix: bool, fd: int):
+def db_restore(d0: int, via_tick: bool, d1: int, d2: int, blk: int, use_fix: bool, fd: int, prior: bool):
     """damage? -> backup (explicit or the automatic one of tick 1) -> damage -> damage? -> block -> restore attempt
     (explicit, or service fix + ticks) -> unblock -> restore -> read. Every step is checked by _apply; at the end a
     backup taken while the data was healthy must have brought database.db back to GOOD and reads must work again."""
@@ -1042,6 +1042,12 @@ def db_restore(d0: int, via_tick: bool, d1: int, d2: int, blk: int, use_fix: boo
     else:
         _apply(w, "backup")
     check(w.backup_health is not None, "no backup was stored by an explicit backup / the first tick over an open path")
+    if prior:
+        # an EARLIER damage + successful restore (leaves whatever the restore leaves behind on the server): the later,
+        # blocked restore must still fail
+        _apply(w, DAMAGE[1])
+        _apply(w, "restore")
+        cover("r_prior")
     dmg1 = pick(DAMAGE, d1)
     if dmg1 != "none":
         _apply(w, dmg1)
